@@ -54,7 +54,10 @@ def make(rng, i, force_trait=None):
     main = traits[0]
     # bound mode
     mode = rng.choice(["auto", "auto", "all", "custom", "custom2", "disabled", "disabled2", "autotrue"])
-    bp = {"auto": None, "all": "bound(*)", "custom": rng.choice(["bound(T: Copy)", 'bound = "T: Copy"', 'bound("T: Copy")', 'bound = "T: Copy,"', "bound(T: Copy,)"]),
+    bp = {"auto": None, "all": "bound(*)", "custom": rng.choice(["bound(T: Copy)", 'bound = "T: Copy"', 'bound("T: Copy")', 'bound = "T: Copy,"', "bound(T: Copy,)",
+                                              # a predicate list may begin with any type, a raw pointer included (string spellings only:
+                                              # in the list spelling `*` is the all-parameters mode)
+                                              'bound = "*const T: Copy"', 'bound("*mut T: Copy, T: Copy")']),
           "custom2": rng.choice(["bound(T: Copy, %s: Clone)" % ty_names[-1], 'bound = "T: Copy, %s: Clone"' % ty_names[-1], 'bound = "T: Copy, %s: Clone,"' % ty_names[-1]]),
           "disabled": rng.choice(["bound = false", "bound(false)"]), "disabled2": rng.choice(['bound = ""', "bound()", 'bound = " "']),
           "autotrue": rng.choice(["bound = true", "bound(true)"])}[mode]
